@@ -19,10 +19,11 @@ EXPLANATION = (
     "known modality precedes every write at the missing rows); R-total-cover (quantitative orders end "
     "with numpy.inf, so `select`'s default is unreachable for finite numbers, and the interval test is "
     "`data <= boundary`); R-missing-columns (column check on every transform, before any "
-    "transformation); R-names-feature (both rejections name the feature); R-assert-only."
+    "transformation); R-names-feature (both rejections name the feature); R-assert-only; R-index-kept (labels "
+    "are stored with index=X.index, otherwise rows of a frame with another index get NaN instead of a fitted label)."
 )
 NOT_DECIDED = "implicit exceptions raised inside pandas/numpy (KeyError/TypeError) cannot be excluded statically"
-FLOORS = {"R-check-before-replace": 4, "R-default-formula": 2, "R-nan-assert": 2, "R-total-cover": 3, "R-missing-columns": 2, "R-names-feature": 2, "R-assert-only": 1}
+FLOORS = {"R-check-before-replace": 4, "R-default-formula": 2, "R-nan-assert": 2, "R-total-cover": 3, "R-missing-columns": 2, "R-names-feature": 2, "R-assert-only": 1, "R-index-kept": 1}
 
 
 def rule_check_before_replace(ctx):
@@ -197,6 +198,9 @@ def check(ctx):
     rule_missing_columns(ctx)
     rule_names_feature(ctx)
     c19.rule_assert_only(ctx)
+    from . import c07
+
+    c07.rule_index_kept(ctx)
 
 
 MUTANTS = [
